@@ -176,9 +176,15 @@ def diagnose(ref_trace, cur_trace):
                 sa.remove(x)
         types = sorted({x[0] for x in sa} | {x[0] for x in sb})
         return "data:" + "+".join(types)
+    ta = [x for x in ref_trace if x[1] != ""]
+    tb = [x for x in cur_trace if x[1] != ""]
+    for x, y in zip(ta, tb):
+        if tuple(x) != tuple(y):
+            # same terminals, met in another order: name the classes whose relative order flipped
+            return "order:" + "/".join(sorted({x[0], y[0]}))
     for x, y in zip(ref_trace, cur_trace):
         if tuple(x) != tuple(y):
-            return "order:" + "/".join(sorted({x[0], y[0]}))
+            return "structure:" + "/".join(sorted({x[0], y[0]}))
     return "other"
 
 
@@ -483,20 +489,32 @@ def check_fresh(run, seed, out, names):
             )
 
 
-def check_sequential(run, res, label, witness_extra):
-    for o in res:
+def check_sequential(run, res, label, witness_extra, same_history=None):
+    """Sequential history.  In-process: compared with the zero history.  Fresh interpreters: compared with
+    the SAME history executed in-process (same_history), so that only the hash seed / process differs."""
+    for i, o in enumerate(res):
         name = o["form"]
         run.transitions += 1
         run.states += 1
         run.validated += 1
         run.nontrivial += 1
         run.count("sequential_cases")
-        tag = compare(name, o)
+        if same_history is not None:
+            ref = same_history[i]
+            assert ref["form"] == name
+            if o.get("sig") == ref.get("sig") and o.get("exc") == ref.get("exc"):
+                tag = None
+            elif "trace" in o and "trace" in ref:
+                tag = diagnose(ref["trace"], o["trace"])
+            else:
+                tag = "exception:" + str(o.get("exc") or ref.get("exc"))
+        else:
+            tag = compare(name, o)
         if tag is not None:
             run.violation(
                 f"{label}:{name} [{tag}]",
                 f"signature of {name} built as part of the whole catalogue in one process ({label}) differs "
-                f"from the zero history ({tag})",
+                f"from the {'same history in the parent process' if same_history is not None else 'zero history'} ({tag})",
                 dict({"kind": "sequential", "form": name, "signature": o.get("sig"),
                       "zero_history_signature": REF[name]["sig"]}, **witness_extra),
             )
@@ -624,7 +642,8 @@ def main(argv):
 
     _progress(run, f"sweep done, {len(cand)} mismatches, {n_todo} confirmed by extra forked histories")
     # ---- sequential history (whole catalogue in one process) ------------------------------------
-    check_sequential(run, forked(sequential, names), "sequential", {})
+    seq_here = forked(sequential, names)
+    check_sequential(run, seq_here, "sequential", {})
 
     # ---- fresh interpreters with other hash seeds ------------------------------------------------
     seeds = [0, 1, 2, 3, 12345]
@@ -633,7 +652,7 @@ def main(argv):
     procs = pmap_fresh(seeds_all)
     for seed, out in zip(seeds_all, procs):
         check_fresh(run, seed, out, names)
-        check_sequential(run, out["sequential"], f"hashseed={seed}/sequential", {"seed": seed})
+        check_sequential(run, out["sequential"], f"hashseed={seed}/sequential", {"seed": seed}, seq_here)
     if len(set(run.extra["hash_probes"].values())) < 3:
         raise RuntimeError("hash seeds did not take effect in the fresh interpreters")
 
@@ -713,8 +732,10 @@ def replay(run):
         full = [f.__name__ for f in CAT.CATALOGUE]
         if "seed" in w:
             out = run_fresh(w["seed"])
-            res = [o for o in out["sequential"] if o["form"] == name]
-            check_sequential(run, res, f"hashseed={w['seed']}/sequential", {"seed": w["seed"]})
+            here = forked(sequential, full)
+            i = full.index(name)
+            check_sequential(run, out["sequential"][i : i + 1], f"hashseed={w['seed']}/sequential",
+                             {"seed": w["seed"]}, here[i : i + 1])
         else:
             res = forked(sequential, full[: full.index(name) + 1])
             check_sequential(run, res[-1:], "sequential", {})
